@@ -13,6 +13,7 @@ package simrt
 import (
 	"encoding/json"
 	"os"
+	"runtime"
 	"sort"
 	"syscall"
 )
@@ -152,6 +153,11 @@ type Journal struct {
 	JumpedUs    int64 `json:"jumped_us,omitempty"`
 	SimTimeUs   int64 `json:"sim_time_us"` // simulated time at exit (ticks + jumps), microseconds
 	DelayedReads int  `json:"delayed_reads,omitempty"`
+	// memory traffic of the whole process at exit (runtime.MemStats): a second
+	// deterministic cost measure besides the logical clock; it also sees work
+	// done inside the standard library and dependencies (copies, re-rendering)
+	AllocBytes uint64 `json:"alloc_bytes"`
+	Mallocs    uint64 `json:"mallocs"`
 	Note         string `json:"note,omitempty"`
 }
 
@@ -238,6 +244,9 @@ func finish(verdict string, code int) {
 	journal.ExitCode = code
 	journal.Ticks = ticks
 	journal.SimTimeUs = int64(simClock() / 1000)
+	var ms runtime.MemStats
+	runtime.ReadMemStats(&ms)
+	journal.AllocBytes, journal.Mallocs = ms.TotalAlloc, ms.Mallocs
 	journal.MapSites = siteStat
 	for _, s := range allStreams {
 		journal.Streams = append(journal.Streams, &s.stat)
